@@ -125,12 +125,17 @@ def write_replay(prop_id: str, payload: Dict[str, Any]) -> str:
     return str(path)
 
 
-def run_slice(run: Run, sl: Slice) -> None:
+def model_check(run: Run, sl: Slice, workers: int):
     tier = run.tier
     cfg = sl.cfg.get(tier) or sl.cfg["quick"]
     sim = sl.simulate.get(tier)
-    res = tlc.run_tlc(sl.module, cfg, workers=sl.workers, simulate=sim, depth=sl.depth,
-                      seed=run.seed if sim else None, env=sl.env)
+    return tlc.run_tlc(sl.module, cfg, workers=workers, simulate=sim, depth=sl.depth,
+                       seed=run.seed if sim else None, env=sl.env)
+
+
+def run_slice(run: Run, sl: Slice, res) -> None:
+    tier = run.tier
+    sim = sl.simulate.get(tier)
     if res.invariant_violated:
         raise tlc.MachineryError(
             "the specification itself violates %s in %s (model inconsistent):\n%s"
@@ -215,8 +220,15 @@ def write_evidence(run: Run) -> None:
 def execute(prop: Prop, tier: str, seed: int) -> int:
     run = Run(prop=prop, tier=tier, seed=seed)
     try:
-        for sl in prop.slices:
-            run_slice(run, sl)
+        # phase 1: TLC on every slice (concurrently); phase 2: replay into the implementation
+        from concurrent.futures import ThreadPoolExecutor
+
+        n = max(1, len(prop.slices))
+        w = max(2, 16 // min(n, 4))
+        with ThreadPoolExecutor(max_workers=min(n, 4)) as ex:
+            results = list(ex.map(lambda sl: model_check(run, sl, w), prop.slices))
+        for sl, res in zip(prop.slices, results):
+            run_slice(run, sl, res)
         if prop.extra:
             prop.extra(run)
     except tlc.MachineryError as exc:
